@@ -1461,6 +1461,9 @@ class FileHashStore(HashStore):
             self._synchronize_referenced_locked_pids(pid)
             self._synchronize_object_locked_cids(cid)
 
+            # Only revert (untag) when this call has begun to write reference files, otherwise
+            # an unexpected error could remove a binding that existed before this call
+            tagging_started = False
             try:
                 # Prepare files and paths
                 tmp_root_path = self._get_store_path("refs") / "tmp"
@@ -1509,6 +1512,7 @@ class FileHashStore(HashStore):
                         + f"found at: {cid_refs_path} for cid: {cid}"
                     )
                     self.fhs_logger.debug(debug_msg)
+                    tagging_started = True
                     # Move the pid refs file
                     pid_tmp_file_path = self._write_refs_file(tmp_root_path, cid, "pid")
                     shutil.move(pid_tmp_file_path, pid_refs_path)
@@ -1527,6 +1531,7 @@ class FileHashStore(HashStore):
                     return
 
                 # Move both files after checking the existing status of refs files
+                tagging_started = True
                 pid_tmp_file_path = self._write_refs_file(tmp_root_path, cid, "pid")
                 cid_tmp_file_path = self._write_refs_file(tmp_root_path, pid, "cid")
                 shutil.move(pid_tmp_file_path, pid_refs_path)
@@ -1549,7 +1554,8 @@ class FileHashStore(HashStore):
                 # much as possible. No exceptions from the reverting process will be thrown.
                 err_msg = f"Unexpected exception: {ue}, reverting tagging process (untag obj)."
                 self.fhs_logger.error(err_msg)
-                self._untag_object(pid, cid)
+                if tagging_started:
+                    self._untag_object(pid, cid)
                 raise ue
 
         finally:
